@@ -21,6 +21,8 @@ LEVEL_TEXT = (
     "truth the verdict must equal emptiness exactly and carry a message.  Every second program is first built and "
     "diagnosed over twin leaves (same names, fewer rows) in the same engines; a user-defined, not empty-invariant RowFilter "
     "is put on top of iteration roots and answered for by the truthful executor."
+    "  Trees with materializations are evaluated (payloads attached) and diagnosed again, with and without the "
+    "executor."
 )
 LEVEL_NOTE = (
     "trusts: the harness executor answers from the reference evaluator applied to the decoded sub-relation it is handed "
